@@ -334,6 +334,30 @@ def run(ctx):
             if not h:
                 run.finding(Finding(R5, rp, "seed file can be overwritten without a successful backup", site=f.loc()))
 
+    # the backup never lands on an existing file: the rename is reached only on the `!exists` edge of the name it uses
+    bsf = ctx.fn(c.IMPLS + "lifecycle::seed::WalletSeed::backup_seed")
+    if bsf is None:
+        run.error("C12.R5: WalletSeed::backup_seed not found")
+    else:
+        ren = {b for b, _t in cfg.find_calls(bsf, "std::fs::rename")}
+        free = set()
+        for b, t in bsf.calls():
+            if (t.get("f") or "").endswith("Path::exists"):
+                free |= cfg.call_guard(bsf, b).fail
+        # names are (re)built by format!(): after each such point an exists() == false edge must be passed before rename
+        fmts = [b for b, t in bsf.calls() if (t.get("f") or "") in ("alloc::fmt::format", "alloc::fmt::format::format_inner") or (t.get("f") or "").endswith("fmt::format")]
+        held = bool(ren) and bool(free)
+        if held:
+            for fb in fmts:
+                # only formats whose result can reach the rename's target argument matter: take all, the first one
+                # (the seed file's own name) is followed by the exists() test of the backup name as well
+                par = cfg.reach(bsf, starts=[s_ for s_ in bsf.succ(fb)], cut_edges=frozenset(free))
+                if any(r in par for r in ren):
+                    held = False
+        run.instance(R5, {"fn": "WalletSeed::backup_seed", "obligation": "rename(seed -> backup name) only after exists(backup name) == false for the name last built", "names built": len(fmts)}, held=held)
+        if not held:
+            run.finding(Finding(R5, bsf.id, "the seed backup can be renamed onto an existing backup file: an earlier backup (the only copy of the original seed after an interrupted recovery) is silently replaced", site=bsf.loc()))
+
     R6 = "C12.R6"
     run.rule(R6, "fresh nonce and excess per context: construction sites and writers of Context secrets", floor=6)
     lits = {}
@@ -492,4 +516,24 @@ def run(ctx):
     run.instance(R9, {"obligation": "no fmt::Argument is built over a secret-bearing type", "format_arguments_examined": nfmt, "secret_bearing_types": len(bearing)}, held=not hits)
     for fid, site, ty in hits:
         run.finding(Finding(R9, fid, "a value of secret-bearing type %s is formatted" % pp.short(ty), site=site))
+    R10 = "C12.R10"
+    run.rule(R10, "paying an invoice never hands out the payer's secret excess: a stored context counts as 'the invoicer's own (self-sent invoice)' only if it holds no inputs; the payer's own context from an earlier call is a replay and is refused before anything is built", floor=1)
+    pit = ctx.fn(c.LW + "api_impl::owner::process_invoice_tx")
+    if pit is None:
+        run.error("C12.R10: process_invoice_tx not found")
+    else:
+        gpc = cfg.find_calls(pit, c.WB + "get_private_context")
+        ais = {b for b, _t in cfg.find_calls(pit, c.LW + "internal::tx::add_inputs_to_slate")}
+        ok_edges = set()
+        for b, _t in gpc:
+            ok_edges |= cfg.call_guard(pit, b).fail  # no stored context: the ordinary case
+        for b, t in pit.calls():
+            if (t.get("f") or "").endswith("::is_empty") and vf.has_field(vf.producers(pit, t["a"][0]) | vf.origins(pit, t["a"][0]), c.LW + "types::Context", "input_ids") and vf.has_call(vf.origins(pit, t["a"][0]), c.WB + "get_private_context"):
+                ok_edges |= cfg.call_guard(pit, b).ok
+        held = bool(gpc) and bool(ais) and bool(ok_edges) and cfg.must_pass(pit, ok_edges, ais)[0]
+        if not gpc or not ais:
+            run.error("C12.R10: get_private_context / add_inputs_to_slate not found in process_invoice_tx")
+        run.instance(R10, {"fn": "owner::process_invoice_tx", "obligation": "the invoice is answered only if no context is stored for it, or the stored one holds no inputs (the invoicer's, self-sent)"}, held=held)
+        if not held:
+            run.finding(Finding(R10, pit.id, "a second process_invoice_tx for the same invoice (before tx_lock_outputs) finds the payer's own stored context, takes it for the invoicer's of a self-sent invoice and leaves inputs and outputs out of the offset: the reply's offset is the negated secret excess of the payer", site=pit.loc()))
     run.not_decided += ["quality of the RNG; that no two nonces ever collide", "recoverability of plaintext from arbitrary emitted byte strings (runtime observation)", "crash points between file operations as executions (R5 gives the order constraints only)"]
